@@ -23,10 +23,12 @@ int g_gi;        /* arbitrary INPUT position (constant) */
 int g_gs;        /* arbitrary second input position (constant): "the characters between &#x and ; are hex digits" */
 int g_k;         /* arbitrary position for std::string::find (constant) */
 int g_n0;        /* output length at function entry */
+char g_c; int g_kind, g_elen;   /* the input character at g_gi, the kind and length of its encoding (set once at function entry) */
 char g_o_old;    /* window cell 0 at function entry */
 int g_i_pos, g_i_next, g_i_start, g_i_rlen; bool g_i_raw;   /* input g_gi: output length when it was consumed / when g_gi+1 was; consumed by a pass-through copy of the reference [g_i_start, g_i_start+g_i_rlen) */
 int g_o_src, g_o_start, g_o_rlen; bool g_o_raw;             /* output position wpos: written by a pass-through copy from input g_o_src of the reference [g_o_start, g_o_start+g_o_rlen) */
-int g_enc_calls; const struct XStr* g_enc_src; struct XStr* g_enc_dst; bool g_enc_keep;   /* call record of EncodeString */
+int g_enc_calls; unsigned long g_enc_src, g_enc_dst; bool g_enc_keep;   /* call record of EncodeString (object numbers of the two strings: a havocked POINTER ghost constrained by an assumed equality makes dfcc replacement vacuous) */
+#define XS_ID(p) ((unsigned long)__CPROVER_POINTER_OBJECT(p))
 bool g_hl_valid; int g_hl_i, g_hl_r;                        /* last result of hexCharRefLength (determinism of a pure function) */
 unsigned long g_found; bool g_find_npos;                    /* result of the last find() */
 int g_f_calls; const char* g_f_fmt; const char* g_f_a; const char* g_f_b;                 /* call record of fprintf */
@@ -63,7 +65,7 @@ static void xs_push(struct XStr* o, char c) {
 #define XS_FROM(o, s, i, n, k) { long p_ = (long)(o)->wpos + (k); if ((o)->len <= p_ && p_ < (long)(o)->len + (n)) (o)->w[k] = (s)->data[(i) + (p_ - (o)->len)]; }
 static void xs_append_from(struct XStr* o, const struct XStr* s, int i, int n) {
   __CPROVER_assert(0 <= i && 0 <= n && (long)i + n <= s->len, "input read: append(c_str()+i, n) stays inside the input");
-  __CPROVER_assert(0 <= o->len && o->len <= 1000000000, "model: output length fits an int");
+  __CPROVER_assert(0 <= o->len && o->len <= 2000000000 && n <= XML_MAXLEN, "model: output length fits an int");
   XS_FROM(o, s, i, n, 0) XS_FROM(o, s, i, n, 1) XS_FROM(o, s, i, n, 2) XS_FROM(o, s, i, n, 3) XS_FROM(o, s, i, n, 4) XS_FROM(o, s, i, n, 5)
   if (o->len <= o->wpos && o->wpos < o->len + n) { g_o_raw = 1; g_o_src = i + (o->wpos - o->len); g_o_start = i; g_o_rlen = n; }
   if (i <= g_gi && g_gi < i + n) { g_i_pos = o->len + (g_gi - i); g_i_raw = 1; g_i_start = i; g_i_rlen = n; }
@@ -147,11 +149,11 @@ static int vf_fprintf2(FILE* f, const char* fmt, const char* a, const char* b) {
 
 /* facts about the consumed input g_gi (I = number of consumed input characters; o = the output string) */
 #define XML_NEXT(I, o) ((g_gi + 1 < (I)) ? g_i_next : (o)->len)
+#define XML_GI_CONST(D, N, keep, cws) ( !(0 <= g_gi && g_gi < (N)) || (g_c == (D)[g_gi] && g_kind == ENC_KIND(g_c, keep, cws) && g_elen == ENC_LEN(g_kind)) )
 #define XML_IN_FACT(D, N, o, I, keep, cws) ( !(0 <= g_gi && g_gi < (I)) || ( \
-     g_n0 <= g_i_pos && (g_gi != 0 || g_i_pos == g_n0) && XML_NEXT(I, o) <= (o)->len \
-  && (g_i_raw ? (XML_NEXT(I, o) == g_i_pos + 1 && HEXREF(D, N, g_i_start, g_i_rlen, g_gi) && ((o)->wpos != g_i_pos || (o)->w[0] == (D)[g_gi])) \
-              : (XML_NEXT(I, o) == g_i_pos + ENC_LEN(ENC_KIND((D)[g_gi], keep, cws)) \
-                 && ((o)->wpos != g_i_pos || CHUNK_OK((o)->w, (D)[g_gi], ENC_KIND((D)[g_gi], keep, cws))))) ))
+     g_n0 <= g_i_pos && g_i_pos <= (o)->len && (g_gi != 0 || g_i_pos == g_n0) && XML_NEXT(I, o) <= (o)->len \
+  && (g_i_raw ? (XML_NEXT(I, o) == g_i_pos + 1 && HEXREF(D, N, g_i_start, g_i_rlen, g_gi) && ((o)->wpos != g_i_pos || (o)->w[0] == g_c)) \
+              : (XML_NEXT(I, o) == g_i_pos + g_elen && ((o)->wpos != g_i_pos || CHUNK_OK((o)->w, g_c, g_kind)))) ))
 /* facts about the output position wpos */
 #define XML_OUT_FACT(D, N, o, keep) ( ((o)->wpos < (o)->len || !g_o_raw) && ( !(g_n0 <= (o)->wpos && (o)->wpos < (o)->len) || \
    (g_o_raw ? (HEXREF(D, N, g_o_start, g_o_rlen, g_o_src) && (o)->w[0] == (D)[g_o_src]) \
@@ -168,14 +170,16 @@ static int vf_fprintf2(FILE* f, const char* fmt, const char* a, const char* b) {
                                      && (!((i) + 3 <= g_gs && g_gs < (i) + (r) - 1) || VF_ISXD((D)[g_gs]))) )
 
 /* ---- ghost hooks spliced into the cut body (assign ghost variables only) ---------------------------- */
-#define XML_FN_BEGIN { g_enc_calls += 1; g_enc_src = str; g_enc_dst = outString; g_enc_keep = keepQuotes; \
-                       g_n0 = outString->len; g_o_old = outString->w[0]; g_o_raw = 0; g_i_raw = 0; g_hl_valid = 0; }
+#define XML_FN_BEGIN { g_enc_calls += 1; g_enc_src = XS_ID(str); g_enc_dst = XS_ID(outString); g_enc_keep = keepQuotes; \
+                       g_n0 = outString->len; g_o_old = outString->w[0]; g_o_raw = 0; g_i_raw = 0; g_hl_valid = 0; \
+                       g_c = (0 <= g_gi && g_gi < str->len) ? str->data[g_gi] : 0; g_kind = ENC_KIND(g_c, keepQuotes, condenseWhiteSpace); g_elen = ENC_LEN(g_kind); }
 #define XML_OUTER_BEGIN { if (i == g_gi) { g_i_pos = outString->len; g_i_raw = 0; } if (i == g_gi + 1) g_i_next = outString->len; }
 
 /* ---- loop contracts (spliced between the loop headers and their bodies) ------------------------------ */
 #define XML_W6L(o) (o)->w[0], (o)->w[1], (o)->w[2], (o)->w[3], (o)->w[4], (o)->w[5]
 #define XML_GHOST_ASSIGNS g_i_pos, g_i_raw, g_i_start, g_i_rlen, g_i_next, g_o_raw, g_o_src, g_o_start, g_o_rlen, g_hl_valid, g_hl_i, g_hl_r
 #define XML_INV_COMMON ( 0 <= i && i <= str->len && g_n0 <= outString->len && outString->len <= g_n0 + 6 * i \
+  && XML_GI_CONST(str->data, str->len, keepQuotes, condenseWhiteSpace) \
   && XML_IN_FACT(str->data, str->len, outString, i, keepQuotes, condenseWhiteSpace) \
   && XML_OUT_FACT(str->data, str->len, outString, keepQuotes) \
   && XML_FRAME_FACT(outString) )
